@@ -857,8 +857,13 @@ func (s *State) evalExpressions(exps []ast.Node) ([]object.Object, *object.Error
 	result := object.MakeObjectSlice(len(exps)) // not that this one can ever be huge but, for consistency.
 	for _, e := range exps {
 		evaluated := s.evalInternal(e)
-		if rt := evaluated.Type(); rt == object.ERROR {
+		switch evaluated.Type() { //nolint:exhaustive // only these 2 are special.
+		case object.ERROR:
 			oerr := evaluated.(object.Error)
+			return nil, &oerr
+		case object.RETURN:
+			// break/continue/return are not values: they can't become an array element or a call argument.
+			oerr := s.Errorf("%s can't be used as a value in an expression list", evaluated.(object.ReturnValue).ControlType.String())
 			return nil, &oerr
 		}
 		result = append(result, object.CopyRegister(evaluated))
